@@ -17,6 +17,8 @@ func checkC17(p *Prog, r *Report) {
 	c17Output(p, r)
 	c17Separators(p, r)
 	c17CalcArgs(p, r)
+	// the dispatcher counts result messages: one message per dispatched line, or the drain loop ends early
+	c11Result(p, r, "C17.R10")
 }
 
 type rangePrint struct {
